@@ -221,7 +221,10 @@ func r12_1(c *RC) {
 		return
 	}
 	good := false
-	for _, a := range uf.AnonFuncs {
+	// the filter handed out: a closure of udpDestinationFilter, or a method
+	// value of a small struct it fills in
+	for _, a := range withHelpers(p, uf, 2)[1:] {
+		a := a
 		instrs(a, func(_ *ssa.BasicBlock, _ int, in ssa.Instruction) {
 			call, ok := in.(*ssa.Call)
 			if !ok || calleeName(call) != "isDestinationAllowed" {
@@ -231,6 +234,20 @@ func r12_1(c *RC) {
 			args := call.Common().Args
 			_, dstIsParam := args[1].(*ssa.Parameter)
 			userOK := false
+			// method form: the name is a field of the receiver, which
+			// udpDestinationFilter sets from UserName()
+			if fld := fieldOrigin(args[2]); fld != nil {
+				for _, st := range p.FieldStores(fld) {
+					if st.Fn != uf {
+						continue
+					}
+					for _, l := range Leaves(st.Val, nil) {
+						if cl, ok := l.(*ssa.Call); ok && cl.Common().IsInvoke() && cl.Common().Method.Name() == "UserName" {
+							userOK = true
+						}
+					}
+				}
+			}
 			for _, l := range Leaves(args[2], nil) {
 				if u, ok := l.(*ssa.UnOp); ok {
 					if fv, ok := u.X.(*ssa.FreeVar); ok {
